@@ -9,8 +9,10 @@
 \*   node  untimed: Procs n1,n2,n3   NSlots 2  MaxTicks 0   (968 states)
 \*   node  timed  : Procs n1,n2 (thorough exhaustive: n1,n2,n3, MaxTicks 5)  NSlots 2  TTLTicks 3  MaxTicks 4
 \*            RenewTier/Wiring = claim/split (repaired code), local/same (redis mode), local/split (the code as it was)
+\*   Faults: one store operation of the listed kinds fails once: gen+SetNX {"SetNX","Delete"} (quick: 12 296 states),
+\*            gen fallback {"Exists","Set","Delete"} (thorough), node {"SetNX"} (quick untimed: 2 648 states); {} = none
 \* INVS per configuration: gen+SetNX: Unique HeldDisjoint NoTaken HeldMarked Exhaustion;  gen fallback: NoTaken
-\* Exhaustion FallbackOnlyDeviation;  node: NodeUnique NoForeign ClaimNeverExpiresUnderLiveHolder NoWrongTier;
+\* Exhaustion FallbackOnlyDeviation;  node: NodeUnique NoForeign ClaimNeverExpiresUnderLiveHolder NoWrongTier FailedHoldsNothing;
 \* node as it was: NoForeign NodeOnlyDeviation.   IdGen_show_*.cfg: the same models with the plain property - TLC
 \* finds the duplicate.
 CONSTANTS
